@@ -34,6 +34,10 @@ enum Summary {
     /// must still carry a resolvable summary)
     BlankText,
     WhitespaceText,
+    /// both forms at once: text with an artifact id that exists / that resolves to nothing (may be
+    /// refused; if accepted, what the handoff records must resolve)
+    TextAndExistingArtifact,
+    TextAndMissingArtifact,
 }
 
 /// Reference cut: Ok((seq, message id)) or Err(refused).
@@ -170,9 +174,9 @@ fn check_history(report: &Report, rt: &Arc<tokio::runtime::Runtime>, hist: &[H])
     for sel in selectors(&events) {
         let want = reference_cut(&events, &sel);
         for what in ["branch", "handoff"] {
-            let summaries: Vec<Summary> = if what == "branch" { vec![Summary::Text] } else { vec![Summary::Text, Summary::ExistingArtifact, Summary::MissingArtifact, Summary::Neither, Summary::BlankText, Summary::WhitespaceText] };
+            let summaries: Vec<Summary> = if what == "branch" { vec![Summary::Text] } else { vec![Summary::Text, Summary::ExistingArtifact, Summary::MissingArtifact, Summary::Neither, Summary::BlankText, Summary::WhitespaceText, Summary::TextAndExistingArtifact, Summary::TextAndMissingArtifact] };
             for summary in summaries {
-                if matches!(summary, Summary::ExistingArtifact) && existing_summary.is_none() {
+                if matches!(summary, Summary::ExistingArtifact | Summary::TextAndExistingArtifact) && existing_summary.is_none() {
                     continue;
                 }
                 let before_lines = parent_lines(&fx, &thread);
@@ -189,6 +193,8 @@ fn check_history(report: &Report, rt: &Arc<tokio::runtime::Runtime>, hist: &[H])
                         Summary::Neither => (None, None),
                         Summary::BlankText => (Some(String::new()), None),
                         Summary::WhitespaceText => (Some(" \n\t ".to_string()), None),
+                        Summary::TextAndExistingArtifact => (Some("handoff text".to_string()), existing_summary.clone()),
+                        Summary::TextAndMissingArtifact => (Some("handoff text".to_string()), Some("e".repeat(64))),
                     };
                     store.handoff(&thread, None, s, sel.from_message_id.clone(), sel.from_seq, ("u".into(), "o".into()))
                 };
@@ -207,7 +213,7 @@ fn check_history(report: &Report, rt: &Arc<tokio::runtime::Runtime>, hist: &[H])
                     ),
                     (Err(e), false) => {
                         // a summary artifact id that does not resolve may legitimately be refused
-                        if !matches!(summary, Summary::MissingArtifact | Summary::BlankText | Summary::WhitespaceText) {
+                        if !matches!(summary, Summary::MissingArtifact | Summary::BlankText | Summary::WhitespaceText | Summary::TextAndExistingArtifact | Summary::TextAndMissingArtifact) {
                             report.violation(&format!("C10:refused_valid_selector:{what}"), case_json(hist, what, &sel, json!({"error": e})), &format!("{what} refused a valid request: {e}"));
                         }
                     }
